@@ -20,6 +20,11 @@ CLAIMED = {
         text="TLC explores every history (<= 4 steps) of update(representation) / evaluate(path) on one product object for every term x path of the model and checks Pure (value = pure function of terms and path) and the static identities (parity, spread/butterfly = call combinations >= 0, digitals sum to one, in+out = vanilla, average between extremes). Real objects of every payoff / underlying class are driven through all histories of length <= 3 (<= 4 thorough) plus longer random ones over integer paths, non-uniform time grids, identity and log representations; every returned value must equal notional * PureValue computed by TLC.",
         note="Trusted: TLC, exact-integer sensor (values doubled). LookBack excluded (its process() raises unconditionally). Ties spot = strike under the log representation are not judged (exp(log x) rounding). Rainbow/Swaption/Cap/Ratchet/Bond/CDS payoffs are not modelled yet.",
         ref="5 (C17)"),
+    "C13": dict(
+        technique="TLA+ spec Grid.tla (axes with explicit shared/per-axis array storage, in-place refinement) model-checked by TLC; every real constructor + refinements trace-validated by TLC on rank-encoded axes",
+        text="TLC checks WellFormed in every state and Nesting on every Refine step for dimensions 1..3, several left/right shapes, up to 3 refinements, aliased and per-dimension storage, arithmetic mid-points and arbitrary interior cell boundaries. Every real grid constructor (fixed-size, uniform, geometric, geometric-with-bounds, probability-step, credit symmetric/asymmetric, user-built per-axis grids; 6 one-dimensional models, 2-d and 3-d copula models) is run and refined up to 3-5 times; each recorded grid is validated by TLC: strictly increasing, 0 / -h / +h at the origin index, truncations = end points, old states at twice their index, inserted state strictly inside the gap and equal to the grid's own middle() computed before the refinement, h halved, origin doubled. TimeGrid end points / length / monotonicity / argument checks.",
+        note="Trusted: TLC, rank sensor (order/equality exact). Promised tail and per-step probabilities are quantised numeric post-conditions (thin). Precondition h < min(|l|, r) for truncation-based constructors.",
+        ref="5 (C13)"),
 }
 
 NOT_APPLICABLE = {
